@@ -326,9 +326,9 @@ def _maybe_cast_type(values, newval):
     dtype = np.asarray(newval).dtype
     
     if values.dtype.kind == dtype.kind:
-        # same kind: integers are widened when the new values do not fit (they would silently wrap around)
-        if dtype.kind in 'iu' and dtype.itemsize > values.dtype.itemsize \
-                and not np.array_equal(np.asarray(newval).astype(values.dtype), newval):
+        # same kind: widened when the new values do not fit (integers would silently wrap around, floats be rounded)
+        if dtype.kind in 'iuf' and dtype.itemsize > values.dtype.itemsize \
+                and not np.array_equal(np.asarray(newval).astype(values.dtype), newval, equal_nan=dtype.kind == 'f'):
             values = np.asarray(values, dtype=dtype)
     elif values.dtype.kind == 'O':
         pass # or already object
